@@ -166,6 +166,17 @@ func (h *Handler) Handle(cx *layer4.Connection, next layer4.Handler) error {
 	// Set conn as a custom variable on cx.
 	cx.SetVar("l4.proxy_protocol.conn", conn)
 
+	// placeholders are part of what later matchers and handlers see of the
+	// connection, so they carry the addresses from the header as well
+	if repl, ok := cx.Context.Value(layer4.ReplacerCtxKey).(*caddy.Replacer); ok {
+		if hdr, _ := conn.ProxyHeader(); hdr != nil {
+			if a, isTCP := hdr.SrcAddr().(*net.TCPAddr); !isTCP || a == nil || a.IP != nil {
+				repl.Set("l4.conn.remote_addr", conn.RemoteAddr())
+				repl.Set("l4.conn.local_addr", conn.LocalAddr())
+			}
+		}
+	}
+
 	// A v1 "PROXY UNKNOWN" header declares no addresses and the receiver has to go on
 	// using those of the real connection; the library reports an empty TCP address
 	// (":0") instead, on which e.g. the remote_ip matcher fails.
